@@ -288,12 +288,12 @@ var (
 	profTiny   = docProfile{Name: "tiny", MaxDepth: 3, MaxWidth: 3, Budget: 8, RichStr: true, KeyAlpha: 4}
 	profMedium = docProfile{Name: "medium", MaxDepth: 6, MaxWidth: 8, Budget: 60, RichStr: true}
 	profKeys   = docProfile{Name: "keys", MaxDepth: 4, MaxWidth: 7, Budget: 40, KeyAlpha: 5}
-	profUniq   = docProfile{Name: "uniq", MaxDepth: 4, MaxWidth: 7, Budget: 40, KeyAlpha: 9, UniqueKey: true}
+	profUniq   = docProfile{Name: "uniq", MaxDepth: 4, MaxWidth: 7, Budget: 40, KeyAlpha: 11, UniqueKey: true}
 	profStr    = docProfile{Name: "strings", MaxDepth: 3, MaxWidth: 8, Budget: 40, RichStr: true, StrHeavy: true}
 	profNum    = docProfile{Name: "numbers", MaxDepth: 3, MaxWidth: 10, Budget: 50, NumHeavy: true}
 )
 
-var keyAlphabet = []string{"a", "b", "", "ab", "ba", "aa", "c", "abc", "k\\u0041", "\\n", "é", "a b"}
+var keyAlphabet = []string{"a", "b", "", "ab", "ba", "aa", strings.Repeat("k", 64), strings.Repeat("L", 63) + "-long-key-beyond-64-bytes", "c", "abc", "k\\u0041", "\\n", "é", "a b"}
 
 type docGen struct {
 	t      *rapid.T
